@@ -1656,8 +1656,8 @@ noncomputable def Ext.idealNtt : Ext K :=
       | none => vs }
 
 theorem Ext.idealNtt_lawful : (Ext.idealNtt root : Ext K).Lawful where
-  mul a b := denote_ofPoly _
-  parBatchMul t fs := denote_ofPoly _
+  mul _ _ := denote_ofPoly _
+  parBatchMul _ _ := denote_ofPoly _
   rem p m h := (Ext.ideal_lawful (K := K)).rem p m h
   redNtt p m h := (Ext.ideal_lawful (K := K)).redNtt p m h
 
